@@ -50,7 +50,7 @@ mod verif_c11 {
         (rig_pstate(pos, len, 0, status), pos, len)
     }
 
-    // @harness id=C11 tier=quick timeout=2400 mem=10
+    // @harness id=C11 tier=thorough timeout=3400 mem=24
     // @bounds {pos} and {len}: pos/len < 1000, length known or unknown (a missing length renders as the position), in progress or finished
     #[kani::proof]
     #[kani::unwind(12)]
@@ -69,7 +69,7 @@ mod verif_c11 {
         std::mem::forget(ps);
     }
 
-    // @harness id=C11 tier=quick timeout=2400 mem=10
+    // @harness id=C11 tier=thorough timeout=3400 mem=24
     // @bounds {human_pos} and {human_len}: the public HumanCount formatter applied to position / length-or-position, values < 1000 and the concrete 4- and 7-digit values 1234 / 1234567
     #[kani::proof]
     #[kani::unwind(12)]
@@ -97,7 +97,7 @@ mod verif_c11 {
         std::mem::forget(ps);
     }
 
-    // @harness id=C11 tier=quick timeout=2400 mem=10
+    // @harness id=C11 tier=thorough timeout=3400 mem=24
     // @bounds {msg}, {prefix}: current message / prefix from a table of strings (incl. empty); {spinner}: tick string tick % (n-1) while in progress (tick < 8, 3 tick strings), the final tick string once finished
     #[kani::proof]
     #[kani::unwind(12)]
@@ -140,7 +140,7 @@ mod verif_c11 {
         std::mem::forget(ps);
     }
 
-    // @harness id=C11 tier=quick timeout=2400 mem=10
+    // @harness id=C11 tier=thorough timeout=3400 mem=24
     // @bounds {elapsed_precise}: FormattedDuration of the elapsed time at the (frozen) draw instant, elapsed < 1000 s; {eta_precise} / {duration_precise} of a finished bar: 00:00:00
     #[kani::proof]
     #[kani::unwind(12)]
@@ -171,7 +171,7 @@ mod verif_c11 {
         std::mem::forget(ps);
     }
 
-    // @harness id=C11 tier=quick timeout=2400 mem=10
+    // @harness id=C11 tier=thorough timeout=3400 mem=24
     // @bounds unknown keys expand to nothing (no line at all for a template consisting of one unknown key)
     #[kani::proof]
     #[kani::unwind(12)]
@@ -228,6 +228,28 @@ mod verif_c11 {
         let b = lines[0].as_ref().as_bytes();
         assert!(b.len() == 2 && b[0] == b't' && b[1] == b'0');
         std::mem::forget(lines);
+        std::mem::forget(st);
+        std::mem::forget(ps);
+    }
+
+    // @harness id=C11 tier=quick timeout=1200 mem=8 checks=rust
+    // @bounds the spinner placeholder's source: current_tick_str for 2..=6 tick strings, any u64 tick count, in progress / finished: tick string number tick % (n-1) while in progress, the final tick string once finished
+    #[kani::proof]
+    #[kani::unwind(8)]
+    //@STUBS std
+    fn c11_spinner_tick_string() {
+        let n: usize = kani::any();
+        kani::assume(n >= 2 && n <= 6);
+        let st = rig_style(Vec::new(), ascii_set(n, 0), ascii_set(2, 0), 1);
+        let tick: u64 = kani::any();
+        let status: u8 = kani::any();
+        kani::assume(status < 3);
+        let ps = rig_pstate(0, None, tick, status);
+        let s = st.current_tick_str(&ps);
+        let want = if status != 0 { n - 1 } else { (tick as usize) % (n - 1) };
+        assert!(s.len() == 1 && s.as_bytes()[0] == b'A' + want as u8);
+        kani::cover!(status == 2);
+        kani::cover!(status == 0 && tick == u64::MAX);
         std::mem::forget(st);
         std::mem::forget(ps);
     }
